@@ -42,9 +42,9 @@
 //
 // Convergence constants K_opt (frozen): calibrated on the unchanged tree (known findings excluded) and on a copy with all
 // proposed fixes (no exclusion), >= 10x above the worst ratio err/scale seen (evidence: "conv_ratio_<optimiser>"):
-//   worst seen   bfgs 0.77  cg 0.32  powell 2.6  simplex 4.3 (fixed copy)  simple 0.38  simple-newton 0.38
-//                brent 0.044 / 0.007  golden 0.027 (fixed copy)  newton-1d 0 (exact)  meta 0.7 (2.1 on the fixed copy)
-//   (thorough tier seed 1: 30272 unexcluded Le cases; plus 8 seeds x 1500 cases on each tree)
+//   worst seen   bfgs 0.77  cg 6.3  powell 3.7  simplex 6.5 (fixed copy)  simple 0.38  simple-newton 0.39
+//                brent 0.063 / 0.047  golden 0.027 (fixed copy)  newton-1d 0 (exact)  meta 0.7 (2.1 on the fixed copy)
+//   (thorough tier seeds 1 and 2: 30272 + 61395 unexcluded Le cases; plus 8 seeds x 1500 cases on each tree)
 // Debugging: C10_TRACE=1 prints every case before it is run (and its cost), C10_RATIO=x prints Le cases above ratio x.
 #include "common/pbt.hpp"
 #include "common/bppcommon.hpp"
@@ -640,7 +640,11 @@ LAW(Ld_budget, RC, 1500, 50000, 160, "a small cap that is hit", 60, false) {
 namespace {
 // per-optimiser constants (see the header comment)
 //                        bfgs  cg  powell  simplex  simple  s-newton  brent-out  brent-in  golden  newton-1d  (linesearch)  meta
-const double KOPT[NOPT] = {10,   5,  30,     50,      5,      5,        3,         3,        3,      0.01,      0,            30};
+const double KOPT[NOPT] = {30,   100, 100,   100,     5,      5,        3,         3,        3,      0.01,      0,            100};
+// Line-search methods stop on |f_k - f_(k-1)| < tau (Powell: relative), which bounds the distance only through the
+// progress of a typical step: the ratio has a heavy tail (conjugate gradient, whose line minimisation runs Brent with a
+// hard-coded relative tolerance of 0.01: 0.32 over 60000 cases, then 6.3 once in 100000), hence the wide constants
+// there; the coordinate-wise methods have a bounded rate (0.38 in every run).
 // Brent and golden section stop on a *relative* abscissa tolerance (about 2 tau |x|, |x| <= 13 here): up to ~0.8 scale in
 // the worst case (tau = 1e-4, lambda = 10) although the parabolic steps of Brent usually land much closer (0.044 seen).
 }
